@@ -287,6 +287,45 @@ func Run(r *ev.Run) {
 		evalBuilt(r, keys, l, b, fmt.Sprintf(":exact%d", target))
 		extra++
 	}
+	// an outer hello that carries a referenced extension type TWICE (different bodies; not a conforming hello, yet one the
+	// walk of the draft's appendix B defines: a reference takes the first extension of its type at or behind the cursor), the
+	// second copy before the first reference's extension, right behind it, or at the very end; and an inner hello whose
+	// pre_shared_key-typed extension (41) is NOT its last one: nothing is reordered
+	for _, where := range []string{"front", "behind", "end"} {
+		for _, refs := range [][]int{{0, 2}, {2}, {0, 2, 4}} {
+			l := layout{AEAD: 1, Refs: refs, MarkerAt: 1, ECHInAt: 0, SID: 32}
+			s := buildLayout(key, l)
+			o := s.Outer.Clone()
+			typ := shared(false)[refs[len(refs)-1]].Type
+			at := -1
+			for j, e := range o.Exts {
+				if e.Type == typ {
+					at = j
+				}
+			}
+			if at < 0 {
+				ev.ToolError("c03: shared extension %#x not in the outer hello", typ)
+			}
+			dup := tlsref.Ext{Type: typ, Data: tlsref.DetBytes("second-copy", len(o.Exts[at].Data)+3)}
+			ins := map[string]int{"front": 0, "behind": at + 1, "end": len(o.Exts)}[where]
+			o.Exts = slices.Insert(o.Exts, ins, dup)
+			if ins <= s.EchIdx {
+				s.EchIdx++
+			}
+			s.Outer = o
+			evalBuilt(r, keys, l, s.Build(), ":outer-carries-a-referenced-type-twice:"+where)
+			extra++
+		}
+	}
+	for _, at := range []int{0, 1, 2} {
+		for _, refs := range [][]int{nil, {0, 2}} {
+			l := layout{AEAD: 2, Refs: refs, MarkerAt: 1, ECHInAt: 99, SID: 32}
+			s := buildLayout(key, l)
+			s.EncInner = slices.Insert(slices.Clone(s.EncInner), min(at, len(s.EncInner)), tlsref.Ext{Type: 41, Data: tlsref.DetBytes("psk", 60)})
+			evalBuilt(r, keys, l, s.Build(), ":inner-psk-not-last")
+			extra++
+		}
+	}
 	// supported_versions lists as real clients send them: an RFC 8701 GREASE value FIRST (BoringSSL/Chrome), in the middle, last;
 	// TLS 1.3 after TLS 1.2 - in the outer hello, in the inner hello, and in both through a reference
 	for vi, vers := range [][]uint16{{0x0a0a, 0x0304, 0x0303}, {0x0304, 0x7a7a, 0x0303}, {0x0304, 0xfafa}, {0x0303, 0x0304}, {0xeaea, 0x0304}} {
